@@ -59,6 +59,10 @@ func (dsp *DataStreamProcessor) SetProjectorsBasis(projectors *mat.Dense, basis 
 	if brows != dsp.NSamples {
 		return fmt.Errorf("basis has wrong size, has rows: %v, want: %v", brows, dsp.NSamples)
 	}
+	// Projections exist only for full-length records (AnalyzeData panics otherwise): refuse the combination here.
+	if dsp.EdgeMulti && dsp.EMTState.mode == EMTRecordsVariableLength {
+		return fmt.Errorf("projectors cannot be loaded on a channel that makes variable-length edge-multi records")
+	}
 	dsp.projectors = projectors
 	dsp.basis = basis
 	dsp.modelDescription = modelDescription
@@ -140,6 +144,10 @@ func (dsp *DataStreamProcessor) ConfigureTrigger(state TriggerState) error {
 	trial.npre = int32(dsp.NPresamples)
 	if state.EdgeMulti && !trial.valid() {
 		return fmt.Errorf("dsp.EMTState in invalid")
+	}
+	// Projections exist only for full-length records (AnalyzeData panics otherwise): refuse the combination here.
+	if state.EdgeMulti && state.EMTState.mode == EMTRecordsVariableLength && dsp.HasProjectors() {
+		return fmt.Errorf("variable-length edge-multi records cannot be used on a channel that has projectors loaded")
 	}
 	dsp.TriggerState = state
 	dsp.LastTrigger = math.MinInt64 / 4 // forget the Last Trigger, so that all channels will auto trigger
